@@ -528,3 +528,60 @@ if __name__ == "__main__":
     except Unsupported as e:
         sys.stderr.write("py2coq: %s\n" % e)
         sys.exit(2)
+
+
+def state_inventory(source_path, roots):
+    """Inventory of state that outlives one call on the code reachable from `roots` (module-level functions of the file, followed
+    through calls by name): (a) module-level names bound to a mutable object ({} [] set() dict() list() OrderedDict() defaultdict()
+    WeakValueDictionary() ...) that the code reads or writes; (b) writes to attributes / __dict__ of a PARAMETER of a reached
+    function (a memo kept on the handle or on whatever the caller passed).  Item assignment on a local object (the
+    `s["converted_max"] = ...` memo on the chunk's own Statistics object) is not listed.  -> {"module": {name: [function...]},
+    "param_attr_writes": ["function: target"...], "reached": [...]}"""
+    tree = ast.parse(open(source_path).read(), source_path)
+    funcs = {n.name: n for n in tree.body if isinstance(n, ast.FunctionDef)}
+    mutable = {}
+    for n in tree.body:
+        if isinstance(n, ast.Assign) and len(n.targets) == 1 and isinstance(n.targets[0], ast.Name):
+            v = n.value
+            if isinstance(v, (ast.Dict, ast.List, ast.Set, ast.DictComp, ast.ListComp, ast.SetComp)) or (
+                    isinstance(v, ast.Call) and isinstance(v.func, (ast.Name, ast.Attribute)) and
+                    (v.func.id if isinstance(v.func, ast.Name) else v.func.attr) in
+                    ("dict", "list", "set", "OrderedDict", "defaultdict", "WeakValueDictionary", "WeakKeyDictionary", "deque", "Counter")):
+                mutable[n.targets[0].id] = n.lineno
+    reached, todo = [], [r for r in roots if r in funcs]
+    while todo:
+        f = todo.pop()
+        if f in reached:
+            continue
+        reached.append(f)
+        for n in ast.walk(funcs[f]):
+            if isinstance(n, ast.Call) and isinstance(n.func, ast.Name) and n.func.id in funcs:
+                todo.append(n.func.id)
+    mod, pw = {}, []
+    for f in reached:
+        d = funcs[f]
+        params = {a.arg for a in d.args.args}
+        local = {t.id for n in ast.walk(d) if isinstance(n, ast.Assign) for t in n.targets if isinstance(t, ast.Name)}
+        for n in ast.walk(d):
+            if isinstance(n, ast.Name) and n.id in mutable and n.id not in params and n.id not in local:
+                mod.setdefault(n.id, [])
+                if f not in mod[n.id]:
+                    mod[n.id].append(f)
+            tgt = None
+            if isinstance(n, (ast.Assign, ast.AugAssign)):
+                for t in (n.targets if isinstance(n, ast.Assign) else [n.target]):
+                    if isinstance(t, ast.Attribute) and isinstance(t.value, ast.Name) and t.value.id in params:
+                        tgt = "%s.%s = ..." % (t.value.id, t.attr)
+                    if isinstance(t, ast.Subscript) and isinstance(t.value, ast.Attribute) and t.value.attr == "__dict__" \
+                            and isinstance(t.value.value, ast.Name) and t.value.value.id in params:
+                        tgt = "%s.__dict__[...] = ..." % t.value.value.id
+            if isinstance(n, ast.Call):
+                fn = n.func
+                if isinstance(fn, ast.Name) and fn.id == "setattr" and n.args and isinstance(n.args[0], ast.Name) and n.args[0].id in params:
+                    tgt = "setattr(%s, ...)" % n.args[0].id
+                if isinstance(fn, ast.Attribute) and fn.attr in ("setdefault", "update", "__setitem__") and isinstance(fn.value, ast.Attribute) \
+                        and fn.value.attr == "__dict__" and isinstance(fn.value.value, ast.Name) and fn.value.value.id in params:
+                    tgt = "%s.__dict__.%s(...)" % (fn.value.value.id, fn.attr)
+            if tgt and "%s: %s" % (f, tgt) not in pw:
+                pw.append("%s: %s" % (f, tgt))
+    return {"module": mod, "param_attr_writes": pw, "reached": sorted(reached)}
